@@ -10,7 +10,61 @@ S_COMMON = [
     "S4 an @nb.njit function behaves as its Python source under S1-S3; decorators are read, not executed",
 ]
 
+from .continuum import F as CT
+from .alignment import F as AL
+
+CONT_OBSERVERS = [CT + "Continuum." + m for m in ("annotators", "__bool__", "num_annotators", "num_units",
+                                                  "avg_num_annotations_per_annotator", "categories")]
+ALIGN_CTORS = [AL + "UnitaryAlignment.__init__", AL + "UnitaryAlignment.disorder@setter", AL + "Alignment.__init__"]
+KERNEL_CHAIN = [NU + "iter_tuples", NU + "extend_right_alignments", NU + "extend_right_disorders", NU + "build_A",
+                DS + "AbstractDissimilarity._get_all_valid_alignments", DS + "AbstractDissimilarity._build_arrays_continuum",
+                DS + "AbstractDissimilarity.valid_alignments"]
+T_SOLVER = ["model: cvxpy boolean program / CBC / GLPK_MI (pyvc/models/numpy_cvx.py): solve() raises SolverError, or leaves x.value None "
+            "only if infeasible, or returns a feasible 0/1 vector of minimal objective",
+            "model: numpy np.where / fancy indexing", "model: sortedcontainers SortedSet / SortedDict (pyvc/heap.py); its "
+            "precondition (Unit.__lt__ is a strict total order consistent with ==) is an obligation, not an assumption",
+            "model: python lists / generator-expression aggregates", "S6 dataclass equality of Unit is field-wise"]
+
 PROPS = {
+    "C01": dict(
+        functions=KERNEL_CHAIN + CONT_OBSERVERS + ALIGN_CTORS + [CT + "Unit.__lt__", CT + "Continuum.get_best_alignment"],
+        oracles=[CT + "Continuum.get_best_alignment"],
+        design_ref="DESIGN.md section 4 C01, appendix A.7",
+        not_decided=["P4 feasibility of the 0/1 program (the all-singletons vector is feasible because singletons are candidates): "
+                     "argued in DESIGN.md, not machine-checked; the solver's own termination",
+                     "that CBC / GLPK honour the assumed solver contract (bounded stand-in: oracle runs in the thorough tier)"],
+        trusted=S_COMMON + T_SOLVER,
+    ),
+    "C02": dict(
+        functions=KERNEL_CHAIN + CONT_OBSERVERS + ALIGN_CTORS + [CT + "Continuum.get_best_alignment"],
+        oracles=[CT + "Continuum.get_best_alignment"],
+        design_ref="DESIGN.md section 4 C02",
+        not_decided=["lifting of the pruning lemma from one unitary alignment to whole partitions (Mathet et al. 2015, 5.1.1): pen-and-paper",
+                     "sum over the support of the 0/1 solution == dot product with the solution (stated as two clauses, the identity itself is not machine-checked)",
+                     "float32 rounding of the objective (ties within rounding may select another argmin)",
+                     "that CBC / GLPK return optima (assumed solver contract; bounded stand-in: brute force over all partitions in the oracle)"],
+        trusted=S_COMMON + T_SOLVER,
+    ),
+    "C08": dict(
+        functions=[NU + "build_A", DS + "AbstractDissimilarity.valid_alignments"] + CONT_OBSERVERS + ALIGN_CTORS
+                  + [AL + "SoftAlignment.__init__", CT + "Continuum.get_best_alignment", CT + "Continuum.get_best_soft_alignment"],
+        oracles=[CT + "Continuum.get_best_alignment", CT + "Continuum.get_best_soft_alignment"],
+        design_ref="DESIGN.md section 4 C08",
+        not_decided=["the solvers themselves (both back ends are given the same assumed contract; what is proved is that the CBC exit and the "
+                     "GLPK exit - after ImportError or SolverError - pass the same program and satisfy the same partition / cover / optimality clauses)"],
+        trusted=S_COMMON + T_SOLVER,
+    ),
+    "C11": dict(
+        functions=KERNEL_CHAIN + CONT_OBSERVERS + [AL + "UnitaryAlignment.__init__", AL + "UnitaryAlignment.disorder@setter",
+                                                   AL + "SoftAlignment.__init__", AL + "Alignment.__init__",
+                                                   CT + "Continuum.get_best_soft_alignment", CT + "Continuum.get_best_alignment"],
+        oracles=[CT + "Continuum.get_best_soft_alignment"],
+        design_ref="DESIGN.md section 4 C11",
+        not_decided=["S4 of the statement (soft disorder <= best disorder) follows from: both are optimal for programs with the same objective, "
+                     "and every vector feasible for `== 1` is feasible for `>= 1`; this last implication is immediate but stated in DESIGN.md, "
+                     "not as an obligation", "solver contract (as C02)"],
+        trusted=S_COMMON + T_SOLVER,
+    ),
     "C07": dict(
         functions=[NU + "iter_tuples", NU + "extend_right_alignments", NU + "extend_right_disorders",
                    DS + "AbstractDissimilarity._get_all_valid_alignments"],
